@@ -105,7 +105,7 @@ def jobs(tier):
         chunk = subs[j::njobs]
         if chunk:
             out.append({'name': f'pool-{j:03d}', 'subs': chunk, 'weights': 'fifo',
-                        'timeout': 170 if tier == 'quick' else 600})
+                        'timeout': 170 if tier == 'quick' else 300})
     return out
 
 
